@@ -46,6 +46,7 @@ type perr struct {
 type dumper struct {
 	info  *idl.Info
 	nodes []pnode
+	lit   []int // bytes of the first string constant
 }
 
 func hx(s string) string { return hex.EncodeToString([]byte(s)) }
@@ -179,6 +180,12 @@ func (d *dumper) val(v ast.ConstantValue, depth int) {
 		d.add(x, depth, "", strconv.FormatBool(bool(x)), "")
 	case ast.ConstantString:
 		d.add(x, depth, "", hx(string(x)), "")
+		if d.lit == nil {
+			d.lit = []int{}
+			for _, b := range []byte(string(x)) {
+				d.lit = append(d.lit, int(b))
+			}
+		}
 	case ast.ConstantReference:
 		d.add(x, depth, x.Name, "", "")
 	case ast.ConstantList:
@@ -277,9 +284,6 @@ func (d *dumper) program(p *ast.Program) {
 				d.add(f, 2, f.Name, v, f.Doc)
 				d.typ(f.ReturnType, 3)
 				d.fields(f.Parameters, 3)
-				if f.Exceptions != nil {
-					v = "throws"
-				}
 				d.fields(f.Exceptions, 3)
 				d.anns(f.Annotations, 3)
 			}
@@ -310,7 +314,7 @@ func (w walkRec) Visit(wk ast.Walker, n ast.Node) ast.Visitor {
 }
 
 func parseOne(text []byte) (res map[string]interface{}) {
-	res = map[string]interface{}{"ok": false, "panicked": false, "perrs": []perr{}, "nodes": []pnode{}, "walk": []pwalk{}, "both": false, "neither": false, "plainok": false}
+	res = map[string]interface{}{"ok": false, "panicked": false, "perrs": []perr{}, "nodes": []pnode{}, "walk": []pwalk{}, "both": false, "neither": false, "plainok": false, "lit": []int{}}
 	defer func() {
 		if r := recover(); r != nil {
 			res["panicked"] = true
@@ -340,6 +344,9 @@ func parseOne(text []byte) (res map[string]interface{}) {
 		d := &dumper{info: info}
 		d.program(prog)
 		res["nodes"] = d.nodes
+		if d.lit != nil {
+			res["lit"] = d.lit
+		}
 		var wk []pwalk
 		ast.Walk(walkRec{info: info, out: &wk}, prog)
 		if wk == nil {
